@@ -442,11 +442,7 @@ def _eligible_def(fn):
         # (a helper that uses its ``**kw`` in any other way -- ``d.update(kw)`` -- is followed only from calls that spell the
         # extra keywords out: the mapping it receives is then the fresh dict ``{'k': v, ..}``, see Inliner._bind)
         kw = a.kwarg.arg
-        passed = set(id(k.value) for n in ast.walk(fn) if isinstance(n, ast.Call) for k in n.keywords if k.arg is None and isinstance(k.value, ast.Name))
-        fn.vt_kw_general = False
         for n in ast.walk(fn):
-            if isinstance(n, ast.Name) and n.id == kw and id(n) not in passed:
-                fn.vt_kw_general = True
             if isinstance(n, ast.arg) and n.arg == kw and n is not a.kwarg:
                 return None
     kind = 'func'
@@ -471,6 +467,15 @@ def _eligible_def(fn):
     if sum(1 for n in ast.walk(fn) if isinstance(n, ast.stmt)) > 60:
         return None
     return kind
+
+
+def _kw_general(fn):
+    """The function reads its ``**kw`` parameter other than to pass it on as ``g(.., **kw)``."""
+    if fn.args.kwarg is None:
+        return False
+    kw = fn.args.kwarg.arg
+    passed = set(id(k.value) for n in ast.walk(fn) if isinstance(n, ast.Call) for k in n.keywords if k.arg is None and isinstance(k.value, ast.Name))
+    return any(isinstance(n, ast.Name) and n.id == kw and id(n) not in passed for n in ast.walk(fn))
 
 
 def collect_helpers(tree, anchors):
@@ -637,7 +642,7 @@ def _eligible_loop_gen(fn, anchors):
     loop.body[-1] = ast.copy_location(ast.Expr(value=ast.Tuple(elts=[ast.Name(id=_LOOP_BODY, ctx=ast.Load())] + ([v] if v is not None else []),
                                                                 ctx=ast.Load())), y)
     kind = _eligible_def(fake)
-    if kind is None or getattr(fake, 'vt_kw_general', False):
+    if kind is None or _kw_general(fake):
         return None
     return kind, fake
 
@@ -884,7 +889,7 @@ class Inliner(object):
             # _eligible_def) and when the mapping is a plain name
             h, recv = self._helper_of_plain(call, cls_name)
             if h is None or h.node.args.kwarg is None or len(stars) != 1 or not isinstance(stars[0].value, ast.Name) or \
-                    getattr(h.node, 'vt_kw_general', False):
+                    _kw_general(h.node):
                 return None, None
             return h, recv
         return self._helper_of_plain(call, cls_name)
@@ -944,7 +949,7 @@ class Inliner(object):
                     continue
                 raise CannotInline('bad keyword %s' % k.arg)
             binding[k.arg] = k.value
-        kw_general = kwparam is not None and getattr(fn, 'vt_kw_general', False)
+        kw_general = kwparam is not None and _kw_general(fn)
         if kw_general:
             # the helper reads its ``**kw`` as a mapping: the call spells every extra keyword out (no ``**m``, see _helper_of),
             # so that mapping is the fresh dict of exactly these items, in the order written -- bound to a local of its own below
